@@ -606,6 +606,7 @@ structure Sbm (α : Type) where
   particle : Particle α
   composition : List String     -- `self.particle.composition`
   K_T0 : α
+  K_T0_0d : Bool                -- `self.K_T0` is a 0-d (masked) array, as `load_sim` leaves it, not a float
   delta_t : α
   t : List α
   y : List (List α)             -- one row per time
@@ -624,7 +625,11 @@ def sbmOwn (s : Sbm α) : File α :=
       vF2 "y" "solution state space" "y" "variable" ["z", "ns"]
         (tabulate2 nt ns fun r c => (s.y[r]?).bind (·[c]?)) [("coordinate", .s "t")]] }
 
+/-- `none` = raises.  save_particle_to_nc_file (l.616-621) wraps a float `K_T0` into a 1-element
+    array but keeps any ndarray as it is; `K_T[i] = K_T0[i]` (l.986) then fails on a 0-d array
+    (IndexError) — which is what `load_sim` stores in `self.K_T0` (l.698). -/
 def saveSbm (h : Header) (s : Sbm α) : Option (File α) :=
+  if s.K_T0_0d then none else
   (saveTable 0 s.composition [s.particle] [s.K_T0]).map fun tbl =>
     (header h).add ((sbmOwn s).add (tbl.toFile 0))
 
@@ -635,6 +640,7 @@ def loadSbm (f : File α) : Sbm α :=
   { particle := ps.1.headD (loadParticleT (Table.ofFile f) 0),
     composition := ps.2,
     K_T0 := valF (at1 (f.f1 "K_T0") 0),
+    K_T0_0d := true,                              -- `nc.variables['K_T0'][0]` is a 0-d masked array
     delta_t := valF (at1 (f.f1 "delta_t") 0),
     t := t,
     y := tabulate2 t.length ns fun r c => valF (at2 (f.f2 "y") r c) }
@@ -1007,11 +1013,12 @@ def pSbm : P (Sbm Float) := do
   let ps ← pParticles
   let comp ← pNames
   let kt0 ← pF
+  let k0d ← pBool
   let dt ← pF
   let t ← pV
   let y ← pM
   match ps with
-  | [p] => pure ⟨p, comp, kt0, dt, t, y⟩
+  | [p] => pure ⟨p, comp, kt0, k0d, dt, t, y⟩
   | _ => failure
 
 def pBpm : P (Bpm Float) := do
@@ -1102,7 +1109,7 @@ def eParticle (p : Particle Float) : List Arg :=
 def eParticles (ps : List (Particle Float)) : List Arg := .n ps.length :: (ps.map eParticle).flatten
 
 def eSbm (s : Sbm Float) : List Arg :=
-  eParticles [s.particle] ++ eNames s.composition ++ [.s s.K_T0, .s s.delta_t, .v s.t] ++ eM s.y
+  eParticles [s.particle] ++ eNames s.composition ++ [.s s.K_T0, eB s.K_T0_0d, .s s.delta_t, .v s.t] ++ eM s.y
 
 def eBpm (s : Bpm Float) : List Arg :=
   [.v s.X, .s s.D, .s s.Vj, .s s.phi_0, .s s.theta_0, .s s.Sj, .s s.Tj, .v s.cj] ++ eNames s.tracers
